@@ -116,7 +116,7 @@ pub fn write_evidence(
             "known_findings_observed": known_seen,
             "components": {
                 "real": ["tau-engine tokeniser/parser/identifier/optimiser/solver/Rule API/Serialize+Deserialize/yaml+json adapters/Object::find (from /repo working tree)", "regex", "regex-automata", "aho-corasick", "serde_yaml + unsafe-libyaml", "serde_json", "tracing", "hashbrown (map implementation)"],
-                "stub": ["HashMap hasher keys inside tau-engine: seeded SimState instead of RandomState (hook H1)", "documents: simulator-owned SimRoot/SimObj/SimArr over a model value", "thread scheduler: simulator-owned (parked OS threads, one runnable)", "rule store: in-memory SimDisk materialised to a scratch file before Rule::load", "tracing subscriber: simulator-owned, formats every event"]
+                "stub": ["HashMap hasher keys inside tau-engine: seeded SimState instead of RandomState (hook H1)", "documents: simulator-owned SimRoot/SimObj/SimArr over a model value", "thread scheduler: simulator-owned (parked OS threads, one runnable)", "rule store: in-memory SimDisk materialised to a scratch file before Rule::load", "tracing subscriber: simulator-owned, formats every event", "global allocator: the system allocator behind a simulator-owned wrapper that turns allocations of simulated threads into scheduling points (allocation seam; configuration loadthreads and one C12 thread run in three)"]
             }
         },
         "assumptions": assumptions(prop),
